@@ -148,10 +148,49 @@ def _run_case(item):
     return PROBES[item[0]](item[1])
 
 
+def _encode(inp: Dict[str, Any]):
+    """request -> token list of the Lean `validate_class` operation (None if the request kind is not modelled)"""
+    methods = {"MNDO": 0, "AM1": 1, "PM3": 2, "PM6": 3, "PM6_SP": 4}
+    if inp["kind"] == "remove_com":
+        com = {"linear": 1, "angular": 2}.get(inp["mode"], 3)
+        return ["validate_class", 0, 1, 0, 1, 0, 0, 0, 0, 0, com, 1, 0, 1, 3, 8, 1, 1]
+    if inp["kind"] == "unsorted":
+        z = inp["species"]
+        return ["validate_class", 0, methods.get(inp.get("method", "AM1"), 1), 0, 1, 0, 0, 0, 0, 0, 0, 1, 0, 1, len(z)] + list(z)
+    exc = inp.get("excited")
+    xm = 0 if not exc else {"cis": 1, "tda": 2, "rpa": 3}.get(exc.get("method", "cis"), 4)
+    toks = ["validate_class", int(bool(inp.get("uhf"))), methods.get(inp.get("method", "AM1"), 1), int(bool((inp.get("sp2") or [False])[0])), int(inp.get("converger", [1])[0]), 0,
+            xm, int(bool(exc and "n_states" in exc)), int(inp.get("active_state", 0)), int(bool(inp.get("analytical"))), 0, len(inp["names"])]
+    for i, nm in enumerate(inp["names"]):
+        z = esh.GEOMS[nm][0]
+        ch = int(inp["charge"][i]) if "charge" in inp else int(esh.CHARGE.get(nm, 0))
+        mu = int(inp["mult"][i]) if "mult" in inp else int(esh.MULT.get(nm, 1))
+        toks += [ch, mu, len(z)] + list(z)
+    return toks
+
+
 def run(ctx: Ctx):
     leanproj.check_theorems(ctx, MODULE, THEOREMS)
     cases = gen_cases(ctx)
     results = mdh.pmap(_run_case, cases, timeout=1800)
+    drv = leanproj.Driver()
+    try:
+        for (name, c), r in zip(cases, results):
+            if name != "reject" or not isinstance(r, dict):
+                continue
+            try:
+                toks = _encode(c)
+                ans = drv.ask(*toks)
+                raised = r["fields"].get("raised")
+                want = "ok" if raised is None else raised
+                # incidental torch index errors surface as RuntimeError/IndexError: the model only knows deliberate guards
+                ok = len(ans) == 1 and ans[0] == want
+                ctx.corr_case("guards: accept/reject class", {"precondition": c["precondition"], "tokens": toks[1:]}, ans, want, ok, stratum=c["precondition"])
+            except Exception:
+                import traceback
+                ctx.obligation("correspondence adapter validate_class ran", False, traceback.format_exc()[-1200:], kind="harness")
+    finally:
+        drv.close()
     for (name, c), r in zip(cases, results):
         if isinstance(r, Exception) or r is None:
             ctx.obligation(f"probe {name} evaluated", False, repr(r)[-1500:], kind="harness")
